@@ -348,6 +348,16 @@ def run(F, run, tier):
                 c06.check_setter(F, run, bname, m)
             except Missing as e:
                 run.broken("R6.1", "%s::%s" % (bname, m), "anchor", "src/ivp", str(e))
+    # "order-appropriate work" presupposes estimators of the advertised order: the embedded pairs / predictor–corrector pairs / BDF pairs are the
+    # published ones (an inconsistent tableau — a stage time that is not the row sum — adds an O(h) term to the estimate and turns tol^(-1/p)
+    # work into tol^(-1) work for non-autonomous problems).  Rules shared with C03 (R3.1, R3.3, R3.4).
+    from rules import c03
+    for name in M.RK_IMPLS:
+        c03.check_rk(F, run, name)
+    for name in M.ADAMS_IMPLS:
+        c03.check_adams(F, run, name)
+    for name in M.BDF_IMPLS:
+        c03.check_bdf(F, run, name)
     run.assumptions += ["the evaluation-count bound is numerical and is not decided", "numeric guards are nondeterministic in the typestate exploration"]
     expl = ("Decides the termination skeleton: which errors a stepper may construct and under which guard, that every Redo path makes typestate "
             "progress or updates dt and passes the minimum-step test (RK structurally, Adams/BDF over all transitions of the explored protocol), "
